@@ -27,8 +27,6 @@ Arguments Ok {A} a.
 Arguments Crash {A}.
 
 (** * Trace provider *)
-Inductive pk := PCount | PSimple (x : xk) | PBatch (x : xk).
-
 Record pst := { p_once : bool; p_alive : bool; p_q : nat }.
 Definition pst0 : pst := {| p_once := false; p_alive := true; p_q := 0 |}.
 
